@@ -171,7 +171,13 @@ class Monitor(object):
         ctx.count('eval.idempotence')
         if not again.ok or again.value != r:
             # mechanism = which rule fires on the function's own output
-            if again.ok:
+            tt = text.strip().replace(';', ':')
+            fields = tt.split(':')
+            mm = re.match(r'^\d+$', fields[-2]) if len(fields) >= 2 else None
+            if k == 'timed' and d == 400 and mm and int(fields[-2]) > 45:
+                # the 400 m "63:40 means 63.40" rewrite turned the minutes into seconds: 100 s and more come out
+                why = '400m-minutes-reread-as-seconds-gives-100s-or-more'
+            elif again.ok:
                 why = 'altered'
             else:
                 msg = str(again.value)
